@@ -139,7 +139,14 @@ def c17_5(ctx):
     for var, want, what in (('condition_stack', 'ConditionStack()', 'condition stack'), ('current_memzone', 'memzone_manager.global_zone', 'memory zone (GLOBAL)'),
                             ('current_scope', 'self.label_scope', 'label scope (its own file scope)'), ('line_num', '0', 'line counter')):
         a = [n for n in walk_no_nested(load.node) if isinstance(n, ast.Assign) and unparse(n.targets[0]) == var and not any(x is n for x in ast.walk(lp))]
-        ctx.check(len(a) == 1 and unparse(a[0].value) == want, f'fresh:{var}', load.site(a[0]) if a else load.site(), f'each file starts with a fresh {what}', '; '.join(unparse(x) for x in a))
+        ok = len(a) == 1 and unparse(a[0].value) == want
+        if var == 'line_num' and not a:
+            # the counter may also be the index of an enumeration of the file's lines starting at 1
+            lid = [c for c in ast.walk(lp) if isinstance(c, ast.Call) and unparse(c.func) == 'LineIdentifier' and c.args]
+            cnt = unparse(lid[0].args[0]) if lid else None
+            ok = isinstance(lp.iter, ast.Call) and unparse(lp.iter.func) == 'enumerate' and isinstance(lp.target, ast.Tuple) and unparse(lp.target.elts[0]) == cnt \
+                and (unparse(lp.iter.args[1]) == '1' if len(lp.iter.args) > 1 else any(k.arg == 'start' and unparse(k.value) == '1' for k in lp.iter.keywords))
+        ctx.check(ok, f'fresh:{var}', load.site(a[0]) if a else load.site(), f'each file starts with a fresh {what}', '; '.join(unparse(x) for x in a))
     from rules.c06 import c06_2
     c06_2(ctx)
 
